@@ -560,6 +560,40 @@ def r11_filter_covers_all(idx, r):
         raise AnalysisError(f"only {n} self-filters found")
 
 
+def r12_ring_cache(idx, r):
+    """Core.circularRingList memoises, per circular ring, the set of OCCUPIED location labels.  It answers getAssembliesInRing / getNumRings in
+    circular-ring mode, so it must be dropped whenever the set of occupied locations changes - in Core.add and Core.removeAssembly (a move keeps
+    the set of a swap intact) - and a query must not write to it (it is a defaultdict: reading a ring by subscript creates that ring)."""
+    core = idx.cls("armi.reactor.cores.Core")
+    builder = core.methods.get("buildCircularRingDictionary")
+    if builder is None or not any(s_.chain == "self.circularRingList" for f in core.methods.values() for s_ in iter_stores(f.node)):
+        raise AnchorMissing("Core.circularRingList / buildCircularRingDictionary")
+    for name in ("add", "removeAssembly"):
+        f = core.methods.get(name)
+        if f is None:
+            raise AnchorMissing(f"Core.{name}")
+
+        def ev(nd):
+            if isinstance(nd, ast.Assign) and any(norm(t) == "self.circularRingList" for t in nd.targets) and norm(nd.value) in ("{}", "None", "dict()", "collections.defaultdict(set)"):
+                return ["dropped"]
+            if isinstance(nd, ast.Call) and norm(nd.func) == "self.circularRingList.clear":
+                return ["dropped"]
+            return []
+        fl = Flow(f.node, ev).run()
+        bad = [e for e in fl.normal_exits() if e.state.get("dropped", (0, 0))[0] < 1]
+        r.require(not bad, f"Core.{name}:drops-the-ring-table", f, node=bad[0].node if bad and bad[0].node is not None else f.node,
+                  msg=f"Core.{name} changes which locations are occupied but keeps circularRingList: in circular-ring mode getAssembliesInRing/getNumRings keep answering from the table "
+                      "built at the first query (an added assembly is in no ring, a removed location stays listed)")
+    n = 0
+    for f in core.methods.values():
+        for x in walk_local(f.node):
+            if isinstance(x, ast.Subscript) and isinstance(x.ctx, ast.Load) and norm(x.value) == "self.circularRingList":
+                n += 1
+                r.violate(f"Core.{f.name}:ring-table-read-without-inserting", f, f"`{norm(x)}` reads the defaultdict by subscript: asking for a ring that holds nothing creates it, and getNumRings (max of the keys) "
+                          "then reports that ring", node=x)
+    r.ok("ring-table-reads-scanned", core)
+
+
 def run(idx, chk):
     chk.explanation = (
         "C01: who may write Composite._children / .parent (frozen owners), pairing of parent/list/locator effects on every path of "
@@ -590,3 +624,5 @@ def run(idx, chk):
                  necessary="copying a subtree yields an independent, complete tree; structural edits never lose children")
     chk.run_rule("R01.11", "a query's filter is applied to the complete candidate list (nothing is added to the list after it was filtered)", lambda r: r11_filter_covers_all(idx, r), floor=2,
                  necessary="queries by flags return exactly the objects a naive walk with the same arguments returns")
+    chk.run_rule("R01.12", "the memo of occupied locations per circular ring is dropped by Core.add/removeAssembly and never written by a query", lambda r: r12_ring_cache(idx, r), floor=3,
+                 necessary="ring queries return the assemblies a naive walk over the current children returns")
